@@ -88,7 +88,8 @@ class Shard:
             self.count("violations_suppressed_same_key")
 
     def inconc(self, why):
-        if why not in self.inconclusive and len(self.inconclusive) < 20:
+        why = str(why)[:500]
+        if why not in self.inconclusive and len(self.inconclusive) < 8:
             self.inconclusive.append(why)
 
     # -- transport
@@ -175,7 +176,7 @@ def run_shards(module, func, arglist, timeout, workers=None, env_list=None):
             if p.returncode != 0:
                 return {
                     "error": f"shard {i} exit {p.returncode}: "
-                    + p.stderr.decode(errors="replace")[-1500:],
+                    + " | ".join(p.stderr.decode(errors="replace").strip().splitlines()[-4:])[-400:],
                     "kind": "crash",
                 }
             with open(out) as f:
